@@ -5113,6 +5113,11 @@ class DfaCompileCtx:
             if not to_replace.is_fallthrough:
                 continue
 
+            # an action which can run out of space redirects _without_ consuming; moving it onto a consuming transition would
+            # un-consume (and re-dispatch to the handler) a character that was already matched
+            if not transition.is_fallthrough and any(x.get_target_override_mode() == ActionOverrideMode.MAY_GOTO_TARGET for x in to_replace.actions):
+                continue
+
             if len(to_replace.actions) > 0:
                 max_count = ProgramData.option(ProgramOption.MAX_SHORTCIRCUIT_FALLTHROUGH) - ProgramData.option(ProgramOption.MAX_SHORTCIRCUIT_ACTION_PENALTY)*(len(to_replace.actions)-1)
                 if ignore_map_counter[(frozenset(to_replace.on_values), to_replace.target)] > max_count:
